@@ -294,10 +294,15 @@ def rule_site(ctx, E):
     okr = False
     for p in ret_paths(ev):
         for e in p.events:
-            if e.kind == 'store_sub' and e.loops and e.c[0] == 'call' and T.dotted(e.c[1]) == 'DimArray':
-                v0 = e.c[2][0]
-                if v0[0] == 'call' and v0[1] == P_('func'):
-                    okr = True
+            if e.kind == 'store_sub' and e.loops and isinstance(e.c, tuple):
+                # (one store per case, or one store of either the rebuilt variable or the untouched one)
+                for alt in T.strip_phi(e.c):
+                    while alt[0] in ('mut', 'setitem'):
+                        alt = alt[1]
+                    if alt[0] == 'call' and T.dotted(alt[1]) == 'DimArray' and alt[2]:
+                        v0 = alt[2][0]
+                        if v0[0] == 'call' and v0[1] == P_('func'):
+                            okr = True
         axes_store = [e for e in p.events if e.kind == 'store_attr' and e.b == 'axes']
         for e in axes_store:
             s = T.show(e.c)
